@@ -32,6 +32,10 @@ type Extend struct {
 	fwd      map[int]string
 	hasExprs bool
 	conflict bool
+	// get is set when all the ReqUnique columns are extend columns.
+	// The source has at most one row and it is not set up for Lookup
+	// (UniqueReq of no columns is NoneReq) so Lookup must Get its row instead.
+	get bool
 }
 
 func NewExtend(src Query, cols []string, exprs []ast.Expr) *Extend {
@@ -223,8 +227,10 @@ func (e *Extend) optimize(mode Mode, req Require) (Cost, Cost, any) {
 }
 
 func (e *Extend) setApproach(req Require, _ any, tran QueryTran) {
+	e.get = false
 	if !set.Disjoint(req.cols, e.cols) {
 		req = UniqueReq(set.Difference(req.cols, e.cols), req.nseeks)
+		e.get = req.use == ReqNone
 	}
 	e.source = SetApproach(e.source, req, tran)
 	e.header = e.getHeader()
@@ -337,7 +343,7 @@ func (e *Extend) Lookup(th *Thread, sels Sels) Row {
 		e.sels = nil
 	}()
 	srcsels := e.splitSelect(sels)
-	row := e.source.Lookup(th, srcsels)
+	row := lookupOrGet(e.source, th, srcsels, e.get)
 	if row == nil {
 		return nil
 	}
